@@ -25,12 +25,16 @@ for d in seeded/C*-[AB]; do
   grep -q "\"$p\"" spec/properties.json || { echo "| $m | $p | NO-CHECK | 0 | 0 | |" | tee -a $out.tmp; continue; }
   run $m $d/patch.diff $p
 done
+for f in selftest/*.diff; do
+  m=$(basename $f .diff); want $m || continue
+  case $m in c17-*) p=C17;; F2-revert) p=C11;; *) p=$(echo $m | cut -d- -f1 | tr a-z A-Z);; esac
+  run "$m (hand-made)" $f $p
+done
 while read c props label; do
   want $label || continue
   run "$label (revert $c)" revert:$c $props
 done <<'EOT'
 1cda1bd C12 F1
-98ca0f4 C11 F2
 c055a87 C13 F3
 82ce081 C07 F4
 82ce081 C13 F4
